@@ -80,6 +80,7 @@ def run(ctx, repo):
     ctx.rule('R6', 'ordering constants: track < hurdles < jumps < throws < relays < other; FIELD_SORT_ORDER lists '
                    'HJ PV LJ TJ SP DT HT JT in that order; text key = one digit + zero-padded >=5 digits; sorter keys only')
     ctx.rule('R7', 'relay distance = int(number of legs) * leg distance')
+    ctx.rule('R9', 'case folding of a relay leg does not move it to another unit arm of get_distance (m metres / M miles)')
     ctx.rule('R8', 'the distance component of a sort key is computed from text that still carries the unit letter (K / M) the pattern admits')
     n_sinks = 0
 
@@ -105,6 +106,7 @@ def run(ctx, repo):
         # every return of discipline_sort_key is a 3-tuple
         if fname == 'discipline_sort_key':
             check_sort_key_shape(ctx, P, utils, mod.functions[qual[0]], consts)
+            check_case_folding(ctx, P, utils)
     # field codes must find their own entry: the "unknown, sorts last" fallback of the lookup helper is for non-codes
     if utils.has_func('_field_sort_order'):
         FIELD = rx.inter(EC, rx.union(P.dfa('PAT_THROWS'), P.dfa('PAT_JUMPS')))
@@ -169,6 +171,73 @@ def arm_returns(fn):
     if isinstance(body[-1], ast.Return):
         out.append((None, body[-1], None))
     return out
+
+
+def check_case_folding(ctx, P, utils):
+    """R9: the relay arm of get_distance upper-cases the leg before it asks get_distance again; the unit chain is case sensitive
+    ('m' metres, 'M' miles).  For every leg suffix PAT_RELAYS admits, the unit arm of the suffix and of its upper-cased form agree."""
+    import re._parser as _sp
+    from ..xval import enumerate_lang
+    gd = utils.func('get_distance')
+    # does the relay arm fold the case of the leg?
+    folds = [c for c in ast.walk(gd) if isinstance(c, ast.Call) and isinstance(c.func, ast.Attribute) and c.func.attr in ('upper', 'lower')
+             and isinstance(c.func.value, ast.Call) and call_name(c.func.value) == 'group']
+    if not folds:
+        ctx.info('get_distance: the relay leg is not case-folded; R9 has nothing to check')
+        return
+    fold_name = folds[0].func.attr
+    # the unit chain: if/elif tests  `remains[.lower()] in (...)`  /  `not remains`
+    arms = []
+    for n in ast.walk(gd):
+        if isinstance(n, ast.If):
+            parts = n.test.values if isinstance(n.test, ast.BoolOp) and isinstance(n.test.op, ast.Or) else [n.test]
+            sets = []
+            for p_ in parts:
+                if isinstance(p_, ast.Compare) and len(p_.ops) == 1 and isinstance(p_.ops[0], ast.In) and isinstance(p_.comparators[0], (ast.Tuple, ast.List, ast.Set)) \
+                        and all(isinstance(x, ast.Constant) and isinstance(x.value, str) for x in p_.comparators[0].elts):
+                    l = p_.left
+                    tr = 'id'
+                    if isinstance(l, ast.Call) and isinstance(l.func, ast.Attribute) and l.func.attr in ('lower', 'upper'):
+                        tr = l.func.attr
+                        l = l.func.value
+                    if isinstance(l, ast.Name):
+                        sets.append((l.id, tr, {x.value for x in p_.comparators[0].elts}))
+            rets = [r for r in n.body if isinstance(r, ast.Return)]
+            if sets and rets and len({s_[0] for s_ in sets}) == 1:
+                arms.append((sets, unparse(rets[0].value)))
+    arms = [a for a in arms if any('qty' in a[1] or '*' in a[1] or 'int' in a[1] for _ in [0])]
+    if len(arms) < 3:
+        raise AnalysisError('get_distance: unit chain not recognised (%d arms)' % len(arms))
+
+    def arm_of(sfx):
+        if sfx == '':
+            return 'metres (no suffix)'
+        for sets, ret in arms:
+            for _nm, tr, vals in sets:
+                x = sfx.lower() if tr == 'lower' else sfx.upper() if tr == 'upper' else sfx
+                if x in vals:
+                    return ret
+        return None
+    g2 = find_group(list(P.need('PAT_RELAYS')), 2)
+    if g2 is None:
+        raise AnalysisError('PAT_RELAYS has no group 2')
+    legs = rx.inter(P.exact(g2), P.exact(list(_sp.parse(r'1(?:\.5)?[A-Za-z]*'))))
+    words = enumerate_lang(P, legs, limit=400, maxlen=10)
+    n = 0
+    for w in words:
+        sfx = w.lstrip('0123456789.')
+        if not w[:1].isdigit():
+            continue
+        n += 1
+        a, b = arm_of(sfx), arm_of(getattr(sfx, fold_name)())
+        if a != b and a is not None:
+            ctx.finding('R9', '%s::get_distance::relay leg suffix %r changes unit when %s-cased' % (UTILS, sfx, fold_name), UTILS, folds[0].lineno,
+                        'PAT_RELAYS admits the leg %r, which get_distance reads as `%s`; the relay arm %s-cases the leg first and %r is read as `%s`: '
+                        'the distance of the relay is computed in another unit' % (w, a, fold_name, getattr(w, fold_name)(), b), '4x' + w)
+    ctx.count('relay leg spellings compared before / after case folding', n)
+    ctx.floor('relay leg spellings compared', n, 4)
+    if not any(f.rule == 'R9' for f in ctx.findings):
+        ctx.ok('R9', 'every leg suffix PAT_RELAYS admits keeps its unit arm under %s() (%d spellings)' % (fold_name, n))
 
 
 def check_sort_key_shape(ctx, P, utils, fn, consts):
